@@ -308,6 +308,7 @@ class Agg(object):
         self.switches = 0
         self.samples = []
         self.strategies = {}
+        self.per_run = []
 
     def add(self, cls, index, res, scenario=None):
         self.runs += 1
@@ -343,6 +344,8 @@ class Agg(object):
                 self.states.add(s)
         d = res.get("digest")
         self.digests.add(d)
+        if os.environ.get("VERIF_DUMP_DIGESTS"):
+            self.per_run.append([cls, index, d, v])
         if res.get("nontrivial"):
             self.digests_nontrivial.add(d)
             pc["nontrivial"] += 1
@@ -371,7 +374,8 @@ class Agg(object):
                     dg=sorted(self.digests),
                     il=sorted(self.interleavings), known=self.known,
                     per_class=self.per_class, span=self.sim_clock_span,
-                    switches=self.switches, samples=self.samples)
+                    switches=self.switches, samples=self.samples,
+                    per_run=self.per_run)
 
     def merge_wire(self, w):
         self.runs += w["runs"]
@@ -407,6 +411,7 @@ class Agg(object):
         for s in w["samples"]:
             if len(self.samples) < 4:
                 self.samples.append(s)
+        self.per_run.extend(w.get("per_run", ()))
 
 
 def _worker(spec, jobs, verif_seed, known, wfd, deadline, wid, nworkers):
